@@ -269,6 +269,54 @@ Proof. vm_compute. reflexivity. Qed.
         else:
             c.violation("history-dependent:operand-order-unexplained", what, repl)
     c.cov["operand_order_pairs"] = len(opairs); c.cov["operand_order_dependent"] = nord
+    # ---------------- plain conversions after compound ones through the same units
+    # in between: rates, areal and cubic expressions over the volume / area units (conversions that go through the planner's factor
+    # replacement and sort the alternatives of each unit); final: every plain conversion among those units.  Repeating a conversion
+    # gives the IDENTICAL result, whatever was converted in between: compared digit for digit with a fresh process
+    VOL = ["liter", "gallon", "teaspoon", "tablespoon", "fluid ounce", "cup", "pint", "quart", "gill", "barrel", "hogshead", "bushel", "peck", "acre-foot", "cord", "stere", "minim"]
+    ARE = ["hectare", "acre", "section", "barn"]
+    def q(a, b, m=("int", "1", "1")): return {"op": "in_unit", "a": {"m": list(m), "u": a}, "b": b}
+    plain = [q([[None, x, 1]], [[None, y, 1]]) for fam_ in (VOL, ARE) for x in fam_ for y in fam_ if x != y]
+    plain += [{"op": "eq", "a": {"m": ["int", "1", "1"], "u": [[None, "gallon", 1]]}, "b": {"m": ["int", "768", "1"], "u": [[None, "teaspoon", 1]]}},
+              {"op": "eq", "a": {"m": ["int", "1", "1"], "u": [[None, "barrel", 1]]}, "b": {"m": ["float", "63", "2"], "u": [[None, "gallon", 1]]}}]
+    if c.tier == "quick": plain = c.rng.sample(plain[:-2], 150) + plain[-2:]
+    between = []
+    for x in VOL[:12]:
+        for y in c.rng.sample(VOL, 3):
+            if x == y: continue
+            between.append(q([[None, x, 1], [None, "minute", -1]], [[None, y, 1], [None, "second", -1]]))
+            between.append(q([[None, x, 1], [None, "mile", -1]], [[None, y, 1], ["kilo", "meter", -1]]))
+            between.append(q([[None, x, 2]], [[None, y, 2]]))
+    for x in ARE:
+        for y in ARE:
+            if x != y: between.append(q([[None, x, 1], [None, "foot", 1]], [[None, y, 1], [None, "meter", 1]]))
+    hp = impl("convsys_worker.py", {"systems": True, "cases": between + plain})["results"][len(between):]
+    fp = impl("convsys_worker.py", {"systems": True, "cases": plain})["results"]
+    ndiff = 0
+    for cs, hres, fres in zip(plain, hp, fp):
+        c.count(["plain-after-compound", cs], nontrivial=True)
+        outcome = lambda r: r.get("m") or r.get("err") or r.get("bool")
+        if "setup_err" in hres or "setup_err" in fres or outcome(hres) == outcome(fres): continue
+        ndiff += 1
+        c.violation("history-dependent:plain-after-compound", f"{cs} answers {outcome(hres)} after compound conversions over the same units and {outcome(fres)} in a fresh process",
+                    {"declarations": "the shipped modules", "in_between": between[:6] + ["... %d compound conversions" % len(between)], "final_query": cs, "interleaved": outcome(hres), "fresh": outcome(fres),
+                     "how": "harness/impl/convsys_worker.py with systems: true and cases = in_between + [final_query], against cases = [final_query]"})
+    c.cov["plain_after_compound"] = len(plain)
+    # ---------------- queries made WHILE a declaration is in progress (another thread, the declaring thread paused before each of its
+    # source lines in conversions.py): once the declaration has returned, the pair converts by the declared ratio, twice identically
+    dr = impl("declrace_worker.py", {"kinds": ["equals", "equals-prefixed", "scale", "redeclare"]})["results"]
+    for x in dr:
+        c.count(["declaration-in-progress", x["kind"], x["k"]], nontrivial=x["paused"])
+        repl = {"declaration": x["kind"], "paused_before_line": x["k"], "of_lines": x["lines"], "answers_before": x["before"], "answers_while_paused": x["during"],
+                "answers_after_it_returned": x["after"], "declared_value": x["want"], "how": "harness/impl/declrace_worker.py (sys.settrace pause of the declaring thread, whole queries from a second thread)"}
+        if x["declare_err"]:
+            c.violation("declaration-raises", f"the declaration raised {x['declare_err']}", repl); continue
+        frac = convlib.frac
+        vals = [frac(a_["m"]) if "m" in a_ and len(a_["m"]) == 3 else None for a_ in x["after"]]
+        if vals[0] is None or vals[0] != vals[1] or abs(vals[0] - Fraction(x["want"]).limit_denominator(10**6)) > Fraction(1, 10**9):
+            c.violation("stale-after-concurrent-query", f"after {x['kind']} returned, the pair converts to {x['after']} (declared: {x['want']}); another thread had queried it while the "
+                        f"declaration stood before its line {x['k']} of {x['lines']}", repl)
+    c.cov["declaration_pause_points"] = len(dr)
     c.sample({"history": hists[1][:8], "answers": full[1]["results"][:8]})
     c.finish(rule="random interleavings of fresh unit definitions, equals() declarations (dyadic ratios, simple and squared) and "
                   "in_unit / reverse / == / < / + queries between possibly unconnected units, in one process, versus the same "
